@@ -98,7 +98,15 @@ pub trait TableBuilder:
             ColumnSpec::NotNull => write!(sql, "NOT NULL").unwrap(),
             ColumnSpec::Default(value) => {
                 write!(sql, "DEFAULT ").unwrap();
-                QueryBuilder::prepare_simple_expr(self, value, sql);
+                match value {
+                    // an operator expression is only accepted in parentheses after DEFAULT
+                    SimpleExpr::Binary(..) | SimpleExpr::Unary(..) => {
+                        write!(sql, "(").unwrap();
+                        QueryBuilder::prepare_simple_expr(self, value, sql);
+                        write!(sql, ")").unwrap();
+                    }
+                    _ => QueryBuilder::prepare_simple_expr(self, value, sql),
+                }
             }
             ColumnSpec::AutoIncrement => {
                 write!(sql, "{}", self.column_spec_auto_increment_keyword()).unwrap()
